@@ -16,14 +16,26 @@ Import ListNotations. Open Scope string_scope. Open Scope Z_scope."""
 
 
 # ---------------------------------------------------------------- exact structural correspondence
+def _try(f):
+    """an exception raised by the implementation is an observation, not a crash of the check"""
+    try:
+        return f()
+    except zl.Inexact:
+        raise
+    except Exception as ex:  # noqa
+        return {"raises": type(ex).__name__ + ": " + str(ex)[:120]}
+
+
 def observe(tree, beam, sub):
     """Run the real Segment code on an integer case; returns the observation dict."""
     seg = zl.build(tree)
     b = zl.build_beam(beam)
     obs = {}
-    obs["out"] = zl.observe_beam(seg.track(b))
+    # the property itself, on the implementation alone: fold of element.track (recursively)
+    obs["fold_out"] = zl.observe_beam(fold_track(seg, b))
+    obs["out"] = _try(lambda: zl.observe_beam(seg.track(b)))
     flat = seg.flattened()
-    obs["flat_out"] = zl.observe_beam(flat.track(b))
+    obs["flat_out"] = _try(lambda: zl.observe_beam(flat.track(b)))
     try:
         obs["len"] = zl._ints(seg.length)
     except TypeError:
@@ -32,11 +44,9 @@ def observe(tree, beam, sub):
     obs["flat_names"] = [e.name for e in flat.elements]
     if sub is not None:
         sc = seg.subcell(sub[0], sub[1])
-        obs["sub"] = {"names": [e.name for e in sc.elements], "out": zl.observe_beam(sc.track(b))}
+        obs["sub"] = {"names": [e.name for e in sc.elements], "out": _try(lambda: zl.observe_beam(sc.track(b)))}
     else:
         obs["sub"] = None
-    # the property itself, on the implementation alone: fold of element.track (recursively)
-    obs["fold_out"] = zl.observe_beam(fold_track(seg, b))
     return obs
 
 
@@ -77,14 +87,21 @@ def fold_track(e, b):
     return e.track(b)
 
 
+RAISED = {"type": "parts", "ps": [], "E": -1, "q": [], "s": []}   # printed for "the implementation raised": never equals a model output
+
+
+def _b(o):
+    return RAISED if (isinstance(o, dict) and "raises" in o) else o
+
+
 def coq_case(tree, beam, sub, obs):
     ln = "None" if obs["len"] is None else f"(Some {zlit(obs['len'])})"
     if obs["sub"] is None:
         sb = "None"
     else:
         sb = (f"(Some ({coq_string(sub[0])}, {coq_string(sub[1])}, {coq_list([coq_string(n) for n in obs['sub']['names']])}, "
-              f"{zl.coq_beam(obs['sub']['out'])}))")
-    return (f"mkc01 {zl.coq_elem(tree)} {zl.coq_beam(beam)} {zl.coq_beam(obs['out'])} {zl.coq_beam(obs['flat_out'])} {ln} "
+              f"{zl.coq_beam(_b(obs['sub']['out']))}))")
+    return (f"mkc01 {zl.coq_elem(tree)} {zl.coq_beam(beam)} {zl.coq_beam(_b(obs['out']))} {zl.coq_beam(_b(obs['flat_out']))} {ln} "
             f"{'true' if obs['skip'] else 'false'} {coq_list([coq_string(n) for n in obs['flat_names']])} {sb}")
 
 
@@ -125,6 +142,20 @@ def structural(run, n_cases, depth):
                 obss = observe_batched(trees, beams, sub)
             except zl.Inexact:
                 run.count("discarded_inexact")
+                continue
+            except Exception:  # noqa  -- the implementation raised on the batch: examine the scalar lattice below instead
+                run.count("vectorised_run_raised")
+                obss = None
+            if obss is None:
+                try:
+                    obs = observe(tree, beam, sub)
+                except zl.Inexact:
+                    continue
+                run.add_case([zl.shape_sig(tree), beam["type"], tree, beam], True)
+                if obs["out"] != obs["fold_out"] or obs["out"] != obs["flat_out"]:
+                    impl_fail.append(len(cases))
+                cases.append((tree, beam, sub, obs))
+                terms.append(coq_case(tree, beam, sub, obs))
                 continue
             run.count("vectorised_batch_%d" % nb)
             for t_i, b_i, obs in zip(trees, beams, obss):
